@@ -6,6 +6,7 @@ import DimodProofs.EnumPoly
 import DimodProofs.EnumInit
 import DimodProofs.EnumPost
 import DimodProofs.Anneal
+import DimodProofs.AnnealDelta
 
 /-! # C07 — samplers and composites report each row's true energy over the right variables
 
@@ -244,6 +245,16 @@ theorem sa_run_spins (h : List (Label × Rat)) (J : List (Label × Label × Rat)
     (d : Draws) (sp : List (Label × Rat)) (hr : isingSA h J br ns np d = .ok sp) :
     sp.map (·.1) = h.map (·.1) ∧ ∀ p ∈ sp, p.2 = 1 ∨ p.2 = -1 :=
   isingSA_spec h J br ns np d sp hr
+
+/-- **the annealer's bookkeeping equals recomputation**: the energy difference the acceptance test uses for a variable,
+    `energy_diff_h[v] + energy_diff_J[v]` as coded (own bias times spin; over the adjacency *set* of `v`, both
+    orientations of the dict key looked up), is exactly the change of `ising_energy(spins, h, J)` when the spin of `v`
+    is flipped and every other spin is kept — for `h` a dict (distinct keys) and `J` as `to_ising()` delivers it (no
+    self-loops, every unordered pair at most once), whatever the spins -/
+theorem sa_delta_is_energy_change (h : List (Label × Rat)) (J : List (Label × Label × Rat)) (spins : List (Label × Rat)) (v : Label)
+    (hh : (h.map (·.1)).Nodup) (hJ : SimpleJ J) :
+    diffH h spins v + diffJ J spins v = isingE h J (flipSpin (dictGet spins) v) - isingE h J (dictGet spins) :=
+  delta_is_energy_change h J spins v hh hJ
 
 /-- **SimulatedAnnealingSampler.sample**, whatever the draws: one row per read; every row is over exactly the
     problem's variables, every value lies in the domain of the problem's vartype, and the reported energy is the
